@@ -105,6 +105,7 @@ type World struct {
 	Seen   map[string]bool // every id ever issued
 	seq    int
 	StepNo int
+	NoTwin bool // faults do not set up the never-crashed twin (checks other than C03)
 	// Twin, when set, is a copy of the store that was compacted at the fork point; every
 	// later op is applied to both and the outcomes must agree (C05).
 	Twin         *World
